@@ -180,6 +180,50 @@ def c08_declared(t: P2, p: int, extra: int) -> bool:
     return chx.judge("C08", "c08_declared", raw, (prods, 2, WORDS2), obs, _oracle)
 
 
+S4 = Tuple[int, int, int, int, int, int, int, int]
+WORDS4 = all_words(4, ["a", "b"])
+
+
+def c08_b4s(b: S4) -> bool:
+    """
+    pre: pinned(x0=b[0], x1=b[1], y0=b[4])
+    pre: enc.in_range(b, 3)
+    pre: (b[0], b[1], b[2], b[3]) < (b[4], b[5], b[6], b[7])
+    post: _
+    """
+    # one variable S (code 0), terminals a, b (codes 1, 2): S -> x0 x1 x2 x3 | y0 y1 y2 y3 | a
+    # (bodies longer than 2 are cut into a chain of fresh variables; two bodies may share a tail)
+    body0 = [enc.pick(b[i], 3) for i in range(4)]
+    body1 = [enc.pick(b[4 + i], 3) for i in range(4)]
+    prods = [(0, body0), (0, body1), (0, [1])]
+    return _run("c08_b4s", (b,), prods, 1, WORDS4)
+
+
+PRE_QUERIES = ["is_empty", "get_generating_symbols", "get_nullable_symbols", "get_reachable_symbols",
+               "remove_useless_symbols", "is_finite"]
+
+
+def c08_prequery(t: P3, p: int, q: int) -> bool:
+    """
+    pre: pinned(h0=t[0], l0=t[1], s0=t[2], h1=t[4], q=q)
+    pre: (p == 3) & ((0 <= q) & (q < 6))
+    pre: cfg_canonical(t, p, 2, 2, 2)
+    post: _
+    """
+    raw = (t, p, q)
+    prods = enc.decode_cfg(t, p, 2, 2, 2)
+    qq = enc.pick(q, 6)
+    chx.enter("c08_prequery", raw)
+    g = enc.build_cfg(prods, 2)
+    # the grammar answers another question first; membership must not depend on that
+    chx.guarded(getattr(g, PRE_QUERIES[qq]))
+    words = WORDS2
+    obs = {"contains": chx.guarded(lambda: [bool(g.contains(w)) for w in words]),
+           "in": chx.guarded(lambda: [bool(w in g) for w in words[:4]]),
+           "generate_epsilon": chx.guarded(g.generate_epsilon)}
+    return chx.judge("C08", "c08_prequery", raw, (prods, 2, words), obs, _oracle)
+
+
 def _sh_p2(tier):
     return [{"p": 0}, {"p": 1}] + product_pins(p=[2], h0=[0, 1], l0=[0, 1, 2])
 
@@ -232,4 +276,19 @@ CONDS = [
                    "grammar object (no cached normal form)",
           "thorough": "first body of length 1-2, words of length 2-3"},
          FUNCS, RULE),
+    Cond("C08", c08_b4s, lambda tier: (product_pins(x0=[1], x1=[1, 2], y0=[1, 2]) if tier == "quick" else
+                                       product_pins(x0=[0, 1, 2], x1=[0, 1, 2], y0=[0, 1, 2])),
+         {"quick": "S -> x0 x1 x2 x3 | y0 y1 y2 y3 | a with symbols from {S,a,b}, first symbol a, second a/b (bodies "
+                   "of length 4: the binarisation chain with shared tails): every word of length <=4 over {a,b}",
+          "thorough": "all ordered pairs of bodies of length 4 over {S,a,b}"},
+         FUNCS + ["CFG._decompose_productions", "CFG._get_next_free_variable"], RULE),
+    Cond("C08", c08_prequery, lambda tier: (product_pins(h0=[0], l0=[1], s0=[2], h1=[0, 1], q=[0, 1, 2, 3, 4, 5])
+                                            if tier == "quick" else
+                                            product_pins(h0=[0], l0=[0, 1], s0=[0, 1, 2], h1=[0, 1], q=[0, 1, 2, 3, 4, 5])),
+         {"quick": "3 productions, the first S -> a: one of is_empty / get_generating_symbols / get_nullable_symbols / "
+                   "get_reachable_symbols / remove_useless_symbols / is_finite is called first (symbolic choice), then "
+                   "contains / in / generate_epsilon on the same object",
+          "thorough": "first production S -> eps | S -> x (x in S, A, a)"},
+         FUNCS + ["CFG.is_empty", "CFG.get_generating_symbols", "CFG.get_nullable_symbols",
+                  "CFG._get_generating_or_nullable"], RULE),
 ]
